@@ -817,6 +817,10 @@ def _isoname_device_instance(program, d, lower_field):
                 v_ = A.AInt(val) if f_.type in ('NUMBER', 'MMSI') or f_.dbid in ('deviceInstanceUpper', 'deviceInstanceLower') else A.AStr([('lit', f"{f_.dbid}#1")])
                 fl.append(A.AObj(id=A.AStr([('lit', f_.dbid)]), value=v_, raw_value=A.AInt(val)))
             msg = A.AObj(PGN=A.AInt(d.pgn), id=A.AStr([('lit', d.id)]), fields=A.AList(fl))
+            menv_ = A.ModuleEnv(program.mod('message').tree)
+            for mn_, md_ in methods.items():
+                if mn_ not in msg.attrs and not mn_.startswith('__'):
+                    msg.attrs[mn_] = A.AFunc(md_, None, menv_, msg)          # bound methods: also reachable through a local alias
             def hook(it, call, env, msg=msg):
                 f = call.func
                 if isinstance(f, ast.Attribute) and isinstance(f.value, ast.Name) and env.get(f.value.id) is msg and f.attr in methods:
